@@ -32,3 +32,5 @@ CLAIM = dict(
     technique=('Lean 4 refinement proof (induction over operation sequences) + differential correspondence of the compiled '
  'model against NumbatList'),
 )
+
+CLAIM["text"] += " A language-level stream runs straight-line numbat programs over the standard library's list functions (cons, cons_end, tail, take, drop, concat, reverse; solely owned temporaries and let-bound shared lists; NaN elements) on the real interpreter: after every statement every variable must hold what a plain sequence holds, `len` must agree, and `==` between any two variables must be equality of the sequences, whether or not they share storage."
